@@ -319,82 +319,117 @@ func c19() []*Ob {
 				if fn == nil {
 					return
 				}
-				n := 0
-				for _, call := range CallsIn(fn, func(cl ssa.CallInstruction) bool {
+				isReplicaCall := func(cl ssa.CallInstruction) bool {
 					return strings.HasSuffix(CallName(cl), "FetchAsyncSearchResult") && cl.Common().IsInvoke()
-				}) {
-					e := ErrorResult(call)
-					if e == nil {
-						continue
-					}
-					n++
-					isErrNonNil := func(f Fact) bool {
-						bo, ok := f.Cond.(*ssa.BinOp)
-						if !ok || !(IsNilConst(bo.X) || IsNilConst(bo.Y)) {
-							return false
+				}
+				// a repo helper that asks the replicas and hands their error on is judged like the call itself, at its
+				// own call site; inside it the same rule holds, and it may leave its failure branch by returning the error
+				isHelperCall := func(cl ssa.CallInstruction) bool {
+					h := StaticCallee(cl)
+					return h != nil && c.P.InRepo(h) && h.Blocks != nil && ErrorResultIndex(h) >= 0 && c.P.HasCall(h, isReplicaCall)
+				}
+				n := 0
+				var checkIn func(fn *ssa.Function, entry bool, depth int)
+				checkIn = func(fn *ssa.Function, entry bool, depth int) {
+					for _, call := range CallsIn(fn, func(cl ssa.CallInstruction) bool { return isReplicaCall(cl) || (depth > 0 && isHelperCall(cl)) }) {
+						if !isReplicaCall(call) {
+							checkIn(StaticCallee(call), false, depth-1)
 						}
-						other := bo.X
-						if IsNilConst(bo.X) {
-							other = bo.Y
+						e := ErrorResult(call)
+						if e == nil {
+							continue
 						}
-						return SameValue(other, e) && (bo.Op == token.NEQ) == f.Val
-					}
-					isNotFound := func(f Fact) bool {
-						bo, ok := f.Cond.(*ssa.BinOp)
-						if !ok || (bo.Op != token.EQL && bo.Op != token.NEQ) || (bo.Op == token.EQL) != f.Val {
-							return false
+						n++
+						isErrNonNil := func(f Fact) bool {
+							bo, ok := f.Cond.(*ssa.BinOp)
+							if !ok || !(IsNilConst(bo.X) || IsNilConst(bo.Y)) {
+								return false
+							}
+							other := bo.X
+							if IsNilConst(bo.X) {
+								other = bo.Y
+							}
+							return SameValue(other, e) && (bo.Op == token.NEQ) == f.Val
 						}
-						// status.Code(err) compared with codes.NotFound itself, not with any other code
-						notFound := int64(5)
-						if pk, ok := c.P.AllPkgs["google.golang.org/grpc/codes"]; ok && pk.Types != nil {
-							if k, ok := pk.Types.Scope().Lookup("NotFound").(*types.Const); ok {
-								if v, exact := constant.Int64Val(k.Val()); exact {
-									notFound = v
+						isNotFound := func(f Fact) bool {
+							bo, ok := f.Cond.(*ssa.BinOp)
+							if !ok || (bo.Op != token.EQL && bo.Op != token.NEQ) || (bo.Op == token.EQL) != f.Val {
+								return false
+							}
+							// status.Code(err) compared with codes.NotFound itself, not with any other code
+							notFound := int64(5)
+							if pk, ok := c.P.AllPkgs["google.golang.org/grpc/codes"]; ok && pk.Types != nil {
+								if k, ok := pk.Types.Scope().Lookup("NotFound").(*types.Const); ok {
+									if v, exact := constant.Int64Val(k.Val()); exact {
+										notFound = v
+									}
 								}
 							}
+							for i, side := range []ssa.Value{bo.X, bo.Y} {
+								if cl, ok := side.(*ssa.Call); ok && strings.HasSuffix(CallName(cl), "status.Code") {
+									other := []ssa.Value{bo.Y, bo.X}[i]
+									if k, isK := ConstInt(other); isK && k == notFound {
+										return true
+									}
+								}
+							}
+							return false
 						}
-						for i, side := range []ssa.Value{bo.X, bo.Y} {
-							if cl, ok := side.(*ssa.Call); ok && strings.HasSuffix(CallName(cl), "status.Code") {
-								other := []ssa.Value{bo.Y, bo.X}[i]
-								if k, isK := ConstInt(other); isK && k == notFound {
+						inFail := func(b *ssa.BasicBlock) bool {
+							for _, f := range FactsAt(b) {
+								if isErrNonNil(f) {
 									return true
 								}
 							}
+							return false
 						}
-						return false
-					}
-					inFail := func(b *ssa.BasicBlock) bool {
-						for _, f := range FactsAt(b) {
-							if isErrNonNil(f) {
-								return true
-							}
-						}
-						return false
-					}
-					bad := 0
-					for _, b := range fn.Blocks {
-						if !inFail(b) {
-							continue
-						}
-						for _, s := range b.Succs {
-							if inFail(s) {
+						bad := 0
+						for _, b := range fn.Blocks {
+							if !inFail(b) {
 								continue
 							}
-							okEdge := false
-							for _, f := range FactsOnEdge(b, s) {
-								if isNotFound(f) {
-									okEdge = true
+							for _, s := range b.Succs {
+								if inFail(s) {
+									continue
+								}
+								okEdge := false
+								for _, f := range FactsOnEdge(b, s) {
+									if isNotFound(f) {
+										okEdge = true
+									}
+								}
+								if okEdge {
+									c.Site(b.Instrs[len(b.Instrs)-1].Pos(), "the failure branch is left only for a NotFound answer")
+								} else {
+									bad++
+									c.Violation("errflow:FetchAsyncSearchResult:replica-error-skipped", b.Instrs[len(b.Instrs)-1].Pos(), "the proxy goes on after a replica error without having classified it as NotFound: when the replica that owns the search is unavailable and another one answers NotFound, the shard is skipped and the result is reported done without it")
 								}
 							}
-							if okEdge {
-								c.Site(b.Instrs[len(b.Instrs)-1].Pos(), "the failure branch is left only for a NotFound answer")
-							} else {
-								bad++
-								c.Violation("errflow:FetchAsyncSearchResult:replica-error-skipped", b.Instrs[len(b.Instrs)-1].Pos(), "the proxy goes on after a replica error without having classified it as NotFound: when the replica that owns the search is unavailable and another one answers NotFound, the shard is skipped and the result is reported done without it")
+						}
+						if !entry {
+							ei := ErrorResultIndex(fn)
+							for _, b := range fn.Blocks {
+								ret, ok := b.Instrs[len(b.Instrs)-1].(*ssa.Return)
+								if !ok || !inFail(b) || ei < 0 {
+									continue
+								}
+								v := RetOperand(ret, ei)
+								nf := false
+								for _, f := range FactsAt(b) {
+									if isNotFound(f) {
+										nf = true
+									}
+								}
+								if SameValue(v, e) || nf {
+									c.Site(ret.Pos(), "%s hands the replica's error on", FuncName(fn))
+								} else {
+									c.Violation("errflow:FetchAsyncSearchResult:replica-error-replaced", ret.Pos(), "%s leaves the failure branch of the per-replica call returning something else than that error", FuncName(fn))
+								}
 							}
 						}
 					}
 				}
+				checkIn(fn, true, 2)
 				if n == 0 {
 					c.Undecided("errflow:FetchAsyncSearchResult:no-call", fn.Pos(), "no per-replica FetchAsyncSearchResult call found")
 				}
